@@ -75,9 +75,21 @@ bool prop(Tape &t, Report &R) {
     po.maxNbSteps = R.thorough() ? 60 : 30;
     params = genParams(t, po, &s.labels);
   }
-  if (!judgeSpec(s, params, k17, R)) return false;
-  // occasionally also a large companion instance (decided at the very end of the tape)
+  // decided at the very end of the tape (nothing is read while a case is judged): a large
+  // companion instance, and movable cells whose obstruction flag is cleared (the flag only
+  // matters for fixed cells; a movable cell takes part in placement either way)
   uint32_t tail = t.next();
+  {
+    uint32_t fw = t.next();
+    if (fw % 4 == 1) {
+      bool any = false;
+      Tape bits = expandTape(fw, s.cells.size());
+      for (auto &c : s.cells)
+        if (!c.fixed && bits.next() % 3 == 0) c.obstruction = false, any = true;
+      if (any) s.labels.insert("cells:movable-with-obstruction-flag-cleared");
+    }
+  }
+  if (!judgeSpec(s, params, k17, R)) return false;
   if (tail % 48 == 1 && !(!t.w.empty() && t.w[0] == 0xE7E7E7E7u)) {
     o.anchorPct = 100;
     CircuitSpec big = genLargeCircuit(tail, o, 200);
